@@ -5,7 +5,9 @@ cd "$(dirname "$0")"
 export CARGO_NET_OFFLINE=true
 mkdir -p work evidence replays
 python3 tools/extract_constants.py > work/translator.json
-(cd lean && lake build)
+# (a proof that no longer checks must not stop the other properties from being set up: each check
+#  rebuilds its own targets and reports the broken obligation itself)
+(cd lean && lake build) || echo "setup: lake build reported failures (the affected checks will report them)"
 cp /repo/Cargo.lock harness/Cargo.lock 2>/dev/null || true
-(cd harness && cargo build --release --offline)
+(cd harness && cargo build --release --offline) || echo "setup: harness build failed (the checks will report it)"
 echo "setup ok"
